@@ -121,7 +121,74 @@ class P:
     def tie_obligations(self):
         return 0
 
+    def startup_paths(self, rng):
+        """the collector BINARY on both load paths: started once with an empty configuration directory and once with the shipped
+        scripts/ipfix.elements installed there (what its start-up code does with the file is part of the load path); the same
+        templates over every built-in element (40 to a template) and the same records are sent to both; what is published must be
+        the same, and something must be published"""
+        import shutil, signal, socket, tempfile, time, struct
+        from props import c15
+        from props.flowgen import Gen, Tpl, MINLEN
+        from props.flowprop import go_model
+        rc, out = vf.sh(["go", "build", "-o", os.path.join(vf.HARNESS, "bin", "vflow"), "./vflow/"], cwd=vf.REPO, env=vf.GOENV, timeout=900)
+        if rc != 0:
+            return [{"cases": [], "no_failing_input": True, "verdict": "vflow binary does not build: " + out[-300:]}], {}
+        model = go_model()
+        g = Gen("ipfix", model, rng)
+        iana = sorted((eid, t) for (pen, eid), (fid, t) in model.items() if pen == 0 and eid < 30000)
+        msgs = []
+        for k in range(0, len(iana), 40):
+            t = Tpl(256 + k // 40, [], [(eid, 0, MINLEN.get(ty, 0) or 4) for eid, ty in iana[k:k + 40]])
+            rec = bytes(rng.randrange(256) for _ in range(sum(f[2] for f in t.fields)))
+            msgs.append((g.enc_msg([g.enc_set(2, g.enc_tpl(t, False))]), g.enc_msg([g.enc_set(t.tid, rec)], seq=770000 + k), 770000 + k, [e for e, _ in iana[k:k + 40]]))
+        got = {}
+        for which in ("absent", "installed"):
+            d = tempfile.mkdtemp(prefix="verif-im-", dir=os.path.join(vf.ROOT, ".build"))
+            sink = c15.Sink()
+            try:
+                col = c15.Collector(d, sink.port)
+                if which == "installed":
+                    shutil.copyfile(os.path.join(vf.REPO, "scripts", "ipfix.elements"), os.path.join(col.conf, "ipfix.elements"))
+                if not col.start():
+                    return [{"cases": [], "verdict": "the collector does not start with the information-element file %s" % which}], {}
+                sock = socket.socket(socket.AF_INET, socket.SOCK_DGRAM); sock.bind(("127.0.0.1", 0))
+                res = []
+                for tmsg, dmsg, seq, ids in msgs:
+                    key = b'"SequenceNo":%d' % seq
+                    line = None
+                    for attempt in range(3):
+                        sock.sendto(tmsg, ("127.0.0.1", col.ports["ipfix"])); time.sleep(0.03)
+                        sock.sendto(dmsg, ("127.0.0.1", col.ports["ipfix"]))
+                        line = sink.wait_for(lambda l: key in l, 1.5)
+                        if line is not None:
+                            break
+                    res.append(line)
+                sock.close()
+                col.stop(signal.SIGTERM)
+                got[which] = res
+            finally:
+                sink.close()
+                if col.p and col.p.poll() is None:
+                    col.p.kill()
+                shutil.rmtree(d, ignore_errors=True)
+        viol = []
+        for (tmsg, dmsg, seq, ids), a, b in zip(msgs, got["absent"], got["installed"]):
+            if a is None:
+                viol.append({"cases": [], "verdict": "the collector (no ipfix.elements installed) publishes nothing for a record over the built-in elements %s..%s" % (ids[0], ids[-1]),
+                             "template": tmsg.hex(), "data": dmsg.hex()}); break
+            if a != b:
+                viol.append({"cases": [], "verdict": "the collector decodes the same template and record (elements %s..%s) differently once the shipped scripts/ipfix.elements is installed in its "
+                             "configuration directory: without the file %r, with it %r" % (ids[0], ids[-1], a[:200], (b or b"nothing published")[:200]), "template": tmsg.hex(), "data": dmsg.hex()}); break
+        return viol, {"startup_path_templates": len(msgs)}
+
     def extra(self, tier, rng, known):
+        sv, scov = self.startup_paths(rng)
+        r = self.extra0(tier, rng, known)
+        r["violations"] = sv + r.get("violations", [])
+        r.setdefault("coverage", {}).update(scov)
+        return r
+
+    def extra0(self, tier, rng, known):
         ex = {}
         p = os.path.join(vf.ROOT, ".build", "extract.json")
         if os.path.exists(p):
